@@ -40,9 +40,20 @@ def prepare(i, idx, canary=False):
     R, T = i["reps"]
     cmp_ok = (r1 <= 1000 and r2 <= 1000 and R in ("int32_t", "int64_t", "double", "float") and abs(oU - oV) / mC < 2 ** 30
               and abs(oU - oV) / c10.rgcd([w for w in (wU, wV) if w] or [F(1)]) < 2 ** 30)
+    # x_ (unit U) minus the origin displacement (unit = common unit of the origin units) is an ordinary mixed-unit subtraction in the
+    # calculation rep, so the library's implicit-conversion policy must admit both scalings: otherwise the conversion is refused by design
+    from .. import reps as _reps
+    calc = _reps.common_type(R, T)
+    if _reps.is_int(calc) and _reps.is_signed(T) and not _reps.is_signed(calc):
+        calc = calc[1:]
+    conv_ok = True
+    if oU != oV:
+        wd = c10.rgcd([w for w in (wU, wV) if w])
+        cu = c10.rgcd([mU, wd])
+        conv_ok = _reps.implicit_ok_same_rep(calc, mU / cu) and _reps.implicit_ok_same_rep(calc, wd / cu)
     spec = '{"%s", %s, %s, %s, %s, %dLL, %dLL, %dLL, %s}' % ("p%d" % idx if not canary else "canary", frac_c(mU), frac_c(oU), frac_c(mV), frac_c(oV), int(fineU), int(fineV), int(fineD), "true" if canary else "false")
     line = '  { %s static const PtSpec sp = %s; Affine<%s, %s, %s, %s, %s> a(sp); a.run(); }' % (" ".join(dict.fromkeys(defs)), spec, names[0], names[1], R, T, "true" if cmp_ok else "false")
-    return line, {"mU": str(mU), "oU": str(oU), "mV": str(mV), "oV": str(oV), "R": R, "T": T, "cmp": cmp_ok, "fine": [int(fineU), int(fineV), int(fineD)]}
+    return line, {"mU": str(mU), "oU": str(oU), "mV": str(mV), "oV": str(oV), "R": R, "T": T, "cmp": cmp_ok, "fine": [int(fineU), int(fineV), int(fineD)], "conv_ok": conv_ok}
 
 
 def emit(lines):
@@ -85,6 +96,8 @@ def negative(ctx):
             if ctx.quick() and (ui + ni + ctx.seed) % 2:
                 continue
             rep = reps_[(ui + ni) % len(reps_)]
+            if "unary minus" in what and rep == "std::uint8_t":
+                rep = "int"      # the positive twin (-q on a sub-int rep) is itself the known finding F5
             pre = NEG_PRELUDE + "using P = QuantityPoint<%s, %s>; using Q = Quantity<%s, %s>;\n" % (U, rep, U, rep)
             sub = lambda s: s.replace("MAKER_PT", mpt).replace("MAKER", mq).replace("REP", rep)
             items.append((pre, sub(bad), sub(twin), core.CONFIGS[(ctx.seed + k) % 6]))
@@ -132,9 +145,14 @@ def run(ctx):
     insts += rnd
     ctx.bump("random_instances", len(rnd))
     lines, metas = [], []
-    for idx, i in enumerate(insts):
-        ln, meta = prepare(i, idx)
-        lines.append(ln); metas.append(meta)
+    kept = []
+    for i in insts:
+        ln, meta = prepare(i, len(lines))
+        if not meta["conv_ok"]:
+            ctx.bump("excluded_policy_refuses_conversion")   # the library refuses these by design (Dangerous conversion): not part of the statement
+            continue
+        lines.append(ln); metas.append(meta); kept.append(i)
+    insts = kept
     cline, cmeta = prepare({"u": {"lib": "au::Celsius"}, "v": {"lib": "au::Kelvins"}, "reps": ["int64_t", "int64_t"]}, 0, canary=True)
     nsh = core.NCPU
     shards = [[] for _ in range(nsh)]
